@@ -65,6 +65,7 @@ static void install_handlers(void)
     sigaction(SIGABRT, &sa, NULL);
     sigaction(SIGFPE, &sa, NULL);
     sigaction(SIGILL, &sa, NULL);
+    sigaction(SIGALRM, &sa, NULL);        /* watchdog: a run that does not end within 30 s of CPU-independent wall time */
 #ifndef VERIF_ASAN
     sigaction(SIGSEGV, &sa, NULL);
     sigaction(SIGBUS, &sa, NULL);
@@ -137,6 +138,8 @@ int main(int argc, char **argv)
             cur_seed = seed;
             printf("START %" PRIu64 "\n", seed);
             fflush(stdout);
+            alarm(30);
+            install_handlers();
             plan p;
             plan_init(&p, e->name, seed);
             e->gen(&p, seed, cfg);
@@ -158,6 +161,7 @@ int main(int argc, char **argv)
         if (!strcmp(argv[1], "gen") || optflag(argc, argv, "--plan")) plan_write(&p, stdout);
         if (!strcmp(argv[1], "gen")) return 0;
         printf("START %" PRIu64 "\n", seed);
+        alarm(30);
         reset_run_state();
         e->run(&p);
         report(seed);
@@ -173,6 +177,7 @@ int main(int argc, char **argv)
         const engine *e = engine_by_name(p.engine);
         cur_seed = p.seed;
         printf("START %" PRIu64 "\n", p.seed);
+        alarm(30);
         reset_run_state();
         e->run(&p);
         report(p.seed);
